@@ -141,16 +141,20 @@ def _damage(text, j):
 GOOD = '({1,2,3,4,5,({"a","b",(["k":({6,7,}),]),}),"z",})'
 
 
+TORN_SHARES = (30, 500, 970)
+
+
 def with_fault(plan, k, info=None):
     q = plan.copy()
     j = int(q.opts()['c16_cycle'])
-    if k < 5000:        # crash point of the second save
-        q.cycles[j] = ['fsarm %d' % k] + [s for s in q.cycles[j] if parse_step(s)[0] != 'fsarm']
-        q.opt('c16_fault', 'crash:%d' % k)
-        return q
-    if k < 10000:       # a transient error: only mutating file call k-5000 of the second save fails
-        q.cycles[j] = ['fsarm %d once' % (k - 5000)] + [s for s in q.cycles[j] if parse_step(s)[0] != 'fsarm']
-        q.opt('c16_fault', 'once:%d' % (k - 5000))
+    if k < 10000:
+        # k < 5000: crash point of the second save (every mutating file call from number k % 1000 on fails);
+        # 5000 <= k < 10000: a transient error, only that call fails.  The thousands digit chooses how much of a failing
+        # write still reaches the file (a torn write): nothing, or one of TORN_SHARES
+        once = k >= 5000; kk = k - 5000 if once else k
+        call, t = kk % 1000, kk // 1000
+        q.cycles[j] = ['fsarm %d%s%s' % (call, ' once' if once else '', ' torn:%d' % TORN_SHARES[t - 1] if t else '')] + [s for s in q.cycles[j] if parse_step(s)[0] != 'fsarm']
+        q.opt('c16_fault', '%s:%d' % ('once' if once else 'crash', call))
         return q
     if k >= 30000:      # a text nested far deeper than anything save_variable() writes
         kind, depth, closed = DEEP[k - 30000]
@@ -208,6 +212,9 @@ def points(plan, res, tier, rng):
     info = base_info(plan, res)
     pts = list(range(info['mut_calls'] + 1)) if info['textA'] and info['textB'] else []
     pts += [5000 + x for x in range(info['mut_calls'])] if info['textA'] and info['textB'] else []
+    if info['textA'] and info['textB']:
+        for t in range(1, len(TORN_SHARES) + 1):
+            pts += [1000 * t + x for x in range(min(info['mut_calls'], 999))] + [5000 + 1000 * t + x for x in range(min(info['mut_calls'], 999))]
     nB = len(info['textB']) // 2
     ndmg = min(nB, 300) + (40 if tier == 'quick' else 200)
     if tier == 'quick' and ndmg > 120:
